@@ -392,6 +392,8 @@ def differential(files, vectors, native_map=None, K=6, N=24, lits=None, override
 def same(a, b):
     if isinstance(a, dict) and isinstance(b, dict):
         if "variant" in a or "variant" in b:
+            if a.get("variant") == "Err" and b.get("variant") == "Err":
+                return True  # error payloads (messages) are not modelled
             return a.get("variant") == b.get("variant") and same(a.get("payload", []), b.get("payload", []))
         return set(a) == set(b) and all(same(a[k], b[k]) for k in a)
     if isinstance(a, (list, tuple)) and isinstance(b, (list, tuple)):
